@@ -143,11 +143,22 @@ pub mod rust_log_ref_finder
                     let mut log_message_span: Option<pest::Span> = None;
                     let rule_ref_container_span = rule_l2.as_span();
                     let mut kvp_spans: Vec<(pest::Span, Option<pest::Span>)> = Vec::new();
+                    let mut target_arg_present = false;
+                    let mut first_arg_after_target_span: Option<pest::Span> = None;
 
                     for rule in rule_l2.into_inner()
                     {
+                        if target_arg_present && first_arg_after_target_span.is_none()
+                        {
+                            first_arg_after_target_span = Some(rule.as_span());
+                        }
+
                         match rule.as_rule()
                         {
+                            Rule::target_arg =>
+                            {
+                                target_arg_present = true;
+                            },
                             Rule::string_literal =>
                             {
                                 log_message_span = match rule.into_inner().next()
@@ -264,11 +275,23 @@ pub mod rust_log_ref_finder
                                 insertion_suffix = Some("; ".to_string());
                             }
 
-                            code_pos = Some(CodePosition::new(
-                                rule_ref_container_span.start() + 1,
-                                rule_ref_container_span.start_pos().line_col().0,
-                                rule_ref_container_span.start_pos().line_col().1 + 1,
-                            ));
+                            code_pos = match first_arg_after_target_span
+                            {
+                                /*
+                                 * The reference must follow the target
+                                 * argument, which always comes first.
+                                 */
+                                Some(span) => Some(CodePosition::new(
+                                    span.start(),
+                                    span.start_pos().line_col().0,
+                                    span.start_pos().line_col().1,
+                                )),
+                                None => Some(CodePosition::new(
+                                    rule_ref_container_span.start() + 1,
+                                    rule_ref_container_span.start_pos().line_col().0,
+                                    rule_ref_container_span.start_pos().line_col().1 + 1,
+                                )),
+                            };
                         }
                     }
                     else
